@@ -197,6 +197,8 @@ class Result:
         self.extra = {}
         self.model_violations = []
         self.known = load_known()
+        for f in glob.glob(os.path.join(WORK, "violations", "%s-*.json" % prop)):
+            os.remove(f)
 
     def add_tlc(self, name, r):
         self.states += r["distinct"]
